@@ -76,6 +76,11 @@ CHECKS = {
          "About 18k-36k grammar literals (every type bound -1/+0/+1/+2, same-digit-count overflows, every half-integer spelling, exponents from E-400 to E400) and every NRf literal up to length 5/7 over `+-0159.E`, each converted to all ten integer types and bool through TryFrom<Token> and through Parameters::next_data in a real message; non-decimal literals of every bound incl. 64-bit overflow patterns; MIN/MAX keywords; every other element type must give a command error. Ok(r) is accepted iff |r - x| <= 1/2 + one ulp of the intermediate float type at the exact value x (exactly x for NR1 spellings); -222 iff some such integer is unrepresentable.",
          "Trusted: refmodel/decnum.rs + bigint.rs (exact rational arithmetic, self-checked), the tolerance fixed in DESIGN.md 3.3. 32/64-bit value space is covered by boundary-directed families, not exhaustively.",
          "DESIGN.md section 5 (C07)"),
+ "C08": ("exploration",
+         "exhaustive structured literal families and constructed halfway cases for f32/f64 against a correctly-rounding reference, all keyword/boolean spellings, and the full (target type x element type) matrix",
+         "~20k literals incl. 17-55 digit mantissas at every float range boundary, converted bit-for-bit against core::str::parse; constructed exact midpoints (and midpoint +/- 1 in the last digit) between adjacent floats for every f32 exponent incl. subnormals and every (8th) f64 exponent over up to 24 mantissa patterns, where the correct neighbour is known by construction from big-integer arithmetic; every case pattern / prefix / near miss of the float keywords and of ON/OFF; 27 targets x 8 element kinds with the documented accept list.",
+         "Trusted: core::str::parse as correctly-rounding reference (cross-checked against the by-construction expectation on every halfway case), refmodel/bigint.rs, the accept-list table transcribed from the conversions' rustdoc. f64 mantissa space is covered by patterns, not exhaustively.",
+         "DESIGN.md section 5 (C08)"),
 }
 
 NOT_YET = "check not built yet (planned: DESIGN.md section 5 describes the bounded exhaustive exploration that will decide it)"
